@@ -88,6 +88,12 @@ Engine/RepAbs.vos Engine/RepAbs.vok Engine/RepAbs.required_vos: Engine/RepAbs.v 
 Engine/RepProofs.vo Engine/RepProofs.glob Engine/RepProofs.v.beautified Engine/RepProofs.required_vo: Engine/RepProofs.v Engine/PositionRep.vo Engine/EncodingProofs.vo
 Engine/RepProofs.vio: Engine/RepProofs.v Engine/PositionRep.vio Engine/EncodingProofs.vio
 Engine/RepProofs.vos Engine/RepProofs.vok Engine/RepProofs.required_vos: Engine/RepProofs.v Engine/PositionRep.vos Engine/EncodingProofs.vos
+Engine/RepRoundTrip.vo Engine/RepRoundTrip.glob Engine/RepRoundTrip.v.beautified Engine/RepRoundTrip.required_vo: Engine/RepRoundTrip.v Engine/PositionRep.vo Engine/EncodingProofs.vo Engine/RepProofs.vo
+Engine/RepRoundTrip.vio: Engine/RepRoundTrip.v Engine/PositionRep.vio Engine/EncodingProofs.vio Engine/RepProofs.vio
+Engine/RepRoundTrip.vos Engine/RepRoundTrip.vok Engine/RepRoundTrip.required_vos: Engine/RepRoundTrip.v Engine/PositionRep.vos Engine/EncodingProofs.vos Engine/RepProofs.vos
+Engine/RepRoundTripNormal.vo Engine/RepRoundTripNormal.glob Engine/RepRoundTripNormal.v.beautified Engine/RepRoundTripNormal.required_vo: Engine/RepRoundTripNormal.v Engine/PositionRep.vo Engine/EncodingProofs.vo Engine/RepProofs.vo Engine/RepRoundTrip.vo
+Engine/RepRoundTripNormal.vio: Engine/RepRoundTripNormal.v Engine/PositionRep.vio Engine/EncodingProofs.vio Engine/RepProofs.vio Engine/RepRoundTrip.vio
+Engine/RepRoundTripNormal.vos Engine/RepRoundTripNormal.vok Engine/RepRoundTripNormal.required_vos: Engine/RepRoundTripNormal.v Engine/PositionRep.vos Engine/EncodingProofs.vos Engine/RepProofs.vos Engine/RepRoundTrip.vos
 Engine/SearchDriver.vo Engine/SearchDriver.glob Engine/SearchDriver.v.beautified Engine/SearchDriver.required_vo: Engine/SearchDriver.v Gen/Consts.vo
 Engine/SearchDriver.vio: Engine/SearchDriver.v Gen/Consts.vio
 Engine/SearchDriver.vos Engine/SearchDriver.vok Engine/SearchDriver.required_vos: Engine/SearchDriver.v Gen/Consts.vos
@@ -205,9 +211,9 @@ Props/Properties_C01.vos Props/Properties_C01.vok Props/Properties_C01.required_
 Props/Properties_C02.vo Props/Properties_C02.glob Props/Properties_C02.v.beautified Props/Properties_C02.required_vo: Props/Properties_C02.v Chess/Rules.vo Engine/PositionRep.vo Engine/RepAbs.vo
 Props/Properties_C02.vio: Props/Properties_C02.v Chess/Rules.vio Engine/PositionRep.vio Engine/RepAbs.vio
 Props/Properties_C02.vos Props/Properties_C02.vok Props/Properties_C02.required_vos: Props/Properties_C02.v Chess/Rules.vos Engine/PositionRep.vos Engine/RepAbs.vos
-Props/Properties_C03.vo Props/Properties_C03.glob Props/Properties_C03.v.beautified Props/Properties_C03.required_vo: Props/Properties_C03.v Engine/PositionRep.vo Engine/RepAbs.vo Engine/RepProofs.vo
-Props/Properties_C03.vio: Props/Properties_C03.v Engine/PositionRep.vio Engine/RepAbs.vio Engine/RepProofs.vio
-Props/Properties_C03.vos Props/Properties_C03.vok Props/Properties_C03.required_vos: Props/Properties_C03.v Engine/PositionRep.vos Engine/RepAbs.vos Engine/RepProofs.vos
+Props/Properties_C03.vo Props/Properties_C03.glob Props/Properties_C03.v.beautified Props/Properties_C03.required_vo: Props/Properties_C03.v Engine/PositionRep.vo Engine/RepAbs.vo Engine/RepProofs.vo Engine/RepRoundTrip.vo Engine/RepRoundTripNormal.vo Engine/Encoding.vo
+Props/Properties_C03.vio: Props/Properties_C03.v Engine/PositionRep.vio Engine/RepAbs.vio Engine/RepProofs.vio Engine/RepRoundTrip.vio Engine/RepRoundTripNormal.vio Engine/Encoding.vio
+Props/Properties_C03.vos Props/Properties_C03.vok Props/Properties_C03.required_vos: Props/Properties_C03.v Engine/PositionRep.vos Engine/RepAbs.vos Engine/RepProofs.vos Engine/RepRoundTrip.vos Engine/RepRoundTripNormal.vos Engine/Encoding.vos
 Props/Properties_C04.vo Props/Properties_C04.glob Props/Properties_C04.v.beautified Props/Properties_C04.required_vo: Props/Properties_C04.v Engine/PositionRep.vo Engine/RepAbs.vo Engine/RepProofs.vo
 Props/Properties_C04.vio: Props/Properties_C04.v Engine/PositionRep.vio Engine/RepAbs.vio Engine/RepProofs.vio
 Props/Properties_C04.vos Props/Properties_C04.vok Props/Properties_C04.required_vos: Props/Properties_C04.v Engine/PositionRep.vos Engine/RepAbs.vos Engine/RepProofs.vos
